@@ -353,6 +353,31 @@ def rule_casretry(ctx, rep):
     pat.require(n >= 10, "only %d CAS retry loops found" % n)
 
 
+def rule_wouldblock_deref(ctx, rep):
+    """non-blocking entry points: a value known to be the WOULDBLOCK sentinel (-1) is returned, never followed as a pointer.
+    On every branch edge that establishes `v == -1` for a loaded / awaited successor v, no access through v is reachable."""
+    n = 0
+    for lib, name in NONBLOCKING:
+        f = ctx.fn(lib, name)
+        rep.touch(f)
+        for t, s_, a in pat.branch_edges_on(f, lambda a: a[0] == "eq" and a[2] == ("c", -1) and a[1][0] in ("select", "phi", "load", "call")):
+            n += 1
+            ids = set()
+            if a[1][0] == "select":
+                # the select instruction itself: find it among the function's instructions by its expression
+                for i in f.all_insts():
+                    if i.op == "select" and ir.expr(f, ["i", i.id], 6) == a[1]:
+                        ids.add(i.id)
+            elif a[1][0] == "phi":
+                ids.add(a[1][1])
+            elif a[1][0] == "load":
+                ids.add(a[1][3])
+            deref = [i for i in f.all_insts() if i.op in ("load", "store") and i.d.get("ap") and i.d["ap"]["base"][0] == "i" and i.d["ap"]["base"][1] in ids]
+            hit, _ = f.reach([f.blocks[s_].insts[0]], deref, include_start=True) if deref else (None, None)
+            rep.check(hit is None, "C17.wouldblock", "%s@%d" % (name, t.id), "the WOULDBLOCK sentinel is never dereferenced", "on the edge where the awaited successor is CDS_*_WOULDBLOCK (-1) the code goes on to access memory through it", [t.where()] + ([hit.where()] if hit is not None else []))
+    pat.require(n >= 4, "only %d WOULDBLOCK tests found" % n)
+
+
 RULES = [
     ("C17.helping", rule_helping),
     ("C17.waitfree", rule_waitfree),
@@ -361,6 +386,7 @@ RULES = [
     ("C17.nonblocking", rule_nonblocking),
     ("C17.retry", rule_retry),
     ("C17.casretry", rule_casretry),
+    ("C17.wouldblock", rule_wouldblock_deref),
     # "a correct result or WOULDBLOCK": the decision tables of the non-blocking iteration / dequeue entry points
     ("C17.result", lambda c, r: pat.shared(__import__("sa.rules.c11", fromlist=["x"]).rule_iter, "C17.result", lambda x: "nonblocking" in x["instance"] or x["status"] != "pass")(c, r)),
     ("C17.result", lambda c, r: pat.shared(__import__("sa.rules.c10", fromlist=["x"]).rule_iter, "C17.result", lambda x: "nonblocking" in x["instance"] or x["status"] != "pass")(c, r)),
